@@ -103,6 +103,8 @@ def run(item, ctx, tier, seed):
     big = len(pos) + len(neg) > 7  # thorough tier: the many large order types get a reduced menu
     if big:
         easy_menu = [(0, 0), (b["easy"][-1], 1), (1, 2)]
+    else:  # counts beyond 2^31 and 2^32: easy samples are counted, never held, so these cost nothing
+        easy_menu += [(3_000_000_000, 1), (2, 5_000_000_000)]
 
     # ---- input forms: every one must give the same sorted object ----------
     forms = []
@@ -190,7 +192,7 @@ def run(item, ctx, tier, seed):
                         ctx.fail("cm-equals-counting-after-buffer-refill", case, observed=m2.tolist(), expected=ml[::-1])
                 if fi == 0:
                     # scalar calls (for a sub-menu of easy counts) and the six rates
-                    if (ep, en) in ((0, 0), (b["easy"][-1], 1)):
+                    if (ep, en) in ((0, 0), (b["easy"][-1], 1)) or max(ep, en) > 10**9:
                         for k, t in enumerate(T):
                             ok, ms = guarded(ctx, "cm-scalar", dict(case, threshold=t), lambda: s.cm(t).matrix)
                             ctx.tick()
